@@ -8,7 +8,7 @@
    chunks_ok    = every chunk stored through the jchuff.c STORE_BUFFER protocol is < BUFSIZE bytes *)
 From Coq Require Import List ZArith.
 From LJT Require Import gen.GenDest model.Dest model.WorstCase proofs.DestProofs proofs.DestLeak proofs.DestChunk proofs.WorstCaseProofs.
-From LJT Require Import gen.GenXformIcc model.XformIcc proofs.XformIccProofs.
+From LJT Require Import gen.GenXformIcc model.XformIcc proofs.XformIccProofs proofs.WorstCaseBound.
 Import ListNotations.
 Local Open Scope Z_scope.
 
@@ -125,24 +125,34 @@ Theorem C13_worstcase_witness : exists w h blocks bytes,
 Proof. exact worstcase_witness. Qed.
 Print Assumptions C13_worstcase_witness.
 
+(* the producer hypothesis (chunks < BUFSIZE) holds for the sequential Huffman encoder, standard
+   luminance tables, 8-bit coefficient range: a block is at most 1681 bits, so at most 438 bytes can
+   be stored while it is encoded (63 pending bits, a stuffed zero behind every byte) < jchuff.c BUFSIZE *)
+Theorem C13_block_bits_bound : forall last_dc coefs bs, coef_ok last_dc coefs ->
+  block_bits_of last_dc coefs = Some bs -> Z.of_nat (length bs) <= 27 + 63 * 26 + 16.
+Proof. exact block_bits_bound. Qed.
+Print Assumptions C13_block_bits_bound.
+
+Theorem C13_block_chunk_below_bufsize : max_block_chunk < huff_local_bufsize.
+Proof. exact block_chunk_below_bufsize. Qed.
+Print Assumptions C13_block_chunk_below_bufsize.
+
 (* (6b) worst-case size + ICC for tj3Transform: the ICC term of tj3TransformBufSize() (conditions
-   translated from the source) is at least the ICC payload tj3Transform() writes, for every
-   TJPARAM_SAVEMARKERS 0..4, TJXOPT_COPYNONE on/off, source / instance profile of any size,
-   tj3GetICCProfile() called or not -- outside the two cases below, in which it is refuted *)
-Theorem C13_xform_icc_sufficient_partial : forall x, valid_setup x ->
-  no_source_profile_case x = false -> after_get_case x = false -> icc_written x <= size_term x.
-Proof. exact xform_icc_sufficient_partial. Qed.
-Print Assumptions C13_xform_icc_sufficient_partial.
+   translated from the source on every run) is at least the ICC payload tj3Transform() writes, for
+   every TJPARAM_SAVEMARKERS 0..4, TJXOPT_COPYNONE on/off, source / instance profile of any size,
+   tj3GetICCProfile() called before or not *)
+Theorem C13_xform_icc_sufficient : forall x, valid_setup x -> icc_written x <= size_term x.
+Proof. exact xform_icc_sufficient_all. Qed.
+Print Assumptions C13_xform_icc_sufficient.
 
-Theorem C13_xform_icc_sufficient_refuted : ~ xform_icc_sufficient_full.
-Proof. exact xform_icc_sufficient_refuted. Qed.
-Print Assumptions C13_xform_icc_sufficient_refuted.
-
-Theorem C13_xform_icc_witnesses :
-  (valid_setup setup_i /\ size_term setup_i = 0 /\ icc_written setup_i = 3000) /\
-  (valid_setup setup_ii /\ size_term setup_ii = 0 /\ icc_written setup_ii = 3000).
-Proof. exact xform_icc_witnesses. Qed.
-Print Assumptions C13_xform_icc_witnesses.
+(* the rules before the fixes bc00053 / 63ab915 are refuted; the current rules give 3000 >= 3000 *)
+Theorem C13_xform_icc_old_rules_refuted :
+  (valid_setup setup_i /\ size_term_with old_size_term_rule false setup_i = 0 /\ icc_written setup_i = 3000 /\
+   size_term setup_i = 3000) /\
+  (valid_setup setup_ii /\ size_term_with gen_size_term true setup_ii = 0 /\ icc_written setup_ii = 3000 /\
+   size_term setup_ii = 3000).
+Proof. exact xform_icc_old_rules_refuted. Qed.
+Print Assumptions C13_xform_icc_old_rules_refuted.
 
 (* non-vacuity: the hypotheses of (1)-(4) hold for non-trivial histories (growth, reuse of a grown
    buffer with *jpegSize = 0, NOREALLOC success, caller frees) *)
